@@ -22,6 +22,14 @@ class CallMixin:
                 with self.guarded(a):
                     b = self.truthy(self.ev(node.args[1], st))
                 return SV(z3.Implies(a, b), T.Bool)
+            if name == "same":
+                a_, b_ = self.ev(node.args[0], st), self.ev(node.args[1], st)
+                return SV(a_.t == b_.t, T.Bool)
+            if name == "distinct":
+                q = self.ev(node.args[0], st)
+                i_, j_ = z3.Int(fresh_name("i")), z3.Int(fresh_name("j"))
+                arr_, n_ = q.ty.arr(q.t), q.ty.len(q.t)
+                return SV(z3.ForAll([i_, j_], z3.Implies(z3.And(0 <= i_, i_ < j_, j_ < n_), z3.Select(arr_, i_) != z3.Select(arr_, j_))), T.Bool)
             if name in ("forall", "exists"):
                 return self.spec_quant(node, st, name == "forall")
             if name in self.spec_funcs and name not in st.env:
@@ -214,10 +222,7 @@ class CallMixin:
         if isinstance(v.ty, T.Map):
             return SV(v.ty.dom(v.t), T.Set(v.ty.key))
         if isinstance(v.ty, T.Seq):
-            sty = T.Set(v.ty.elem)
-            y = z3.Const("y!set", v.ty.elem.sort())
-            i = z3.Int("i!set")
-            return SV(z3.Lambda([y], z3.Exists([i], z3.And(0 <= i, i < v.ty.len(v.t), z3.Select(v.ty.arr(v.t), i) == y))), sty)
+            return self.elems(v)
         raise Unsupported(f"set({v.ty})")
 
     def bi_dict(self, node, st, want):
@@ -349,7 +354,11 @@ class CallMixin:
             arr, n = ty.arr(base.t), ty.len(base.t)
             if meth == "append":
                 v = self.ev(node.args[0], st, ty.elem)
-                writeback(SV(ty.mk(z3.Store(arr, n, v.t), n + 1), ty))
+                newseq = SV(ty.mk(z3.Store(arr, n, v.t), n + 1), ty)
+                writeback(newseq)
+                if ty.elem != T.Int:
+                    # element-set view of append (consequence of the elems axioms by extensionality)
+                    st.assume(z3.Implies(n >= 0, self.elems(newseq).t == z3.Store(self.elems(base).t, v.t, True)))
                 if ty.elem == T.Int:
                     st.assume(psum(z3.Store(arr, n, v.t), n + 1) == psum(arr, n) + v.t)
                 return SV(T.NoneT.value(), T.NoneT)
@@ -357,7 +366,14 @@ class CallMixin:
                 if node.args:
                     raise Unsupported("pop(i)")
                 self.check(st, n > 0, "IndexError(pop from empty)", node)
-                writeback(SV(ty.mk(arr, n - 1), ty))
+                newseq = SV(ty.mk(arr, n - 1), ty)
+                writeback(newseq)
+                if ty.elem != T.Int:
+                    # pop removes the last element from the element set when the list has no duplicates
+                    i_, j_ = z3.Int(fresh_name("i")), z3.Int(fresh_name("j"))
+                    distinct = z3.ForAll([i_, j_], z3.Implies(z3.And(0 <= i_, i_ < j_, j_ < n), z3.Select(arr, i_) != z3.Select(arr, j_)))
+                    st.assume(z3.Implies(distinct, self.elems(newseq).t == z3.Store(self.elems(base).t, z3.Select(arr, n - 1), False)))
+                    st.assume(z3.IsSubset(self.elems(newseq).t, self.elems(base).t))
                 return SV(z3.Select(arr, n - 1), ty.elem)
             if meth == "reverse":
                 i = z3.Int("i!rv")
